@@ -777,6 +777,12 @@ class IndexPlugin(Plugin):
                     got = g(s)
                     if not close(got, want, REL, terms):
                         mon.viol("C17", "index_value", {"index": im.name, "time": s, "getter": g.__name__, "got": got, "want": want, "where": where})
+                # the fundamental index recomputed for a past time is the same average of what the
+                # components record for that time (pure recomputation; shocks change both sides alike)
+                fw = sum(c.get_fundamental_price(s) * ww for c, ww in zip(comps, w)) / W
+                fg = im.compute_fundamental_index(s)
+                if not close(fg, fw, REL, sum(abs(c.get_fundamental_price(s) * ww) for c, ww in zip(comps, w)) / W):
+                    mon.viol("C17", "index_fundamental", {"index": im.name, "time": s, "getter": "compute_fundamental_index", "got": fg, "want": fw, "where": where})
             mon.stat("index_checks")
             if len(set(w)) > 1:
                 mon.probe("unequal_weights_checked")
